@@ -20,6 +20,7 @@ import (
 	"fmt"
 	"github.com/echovault/sugardb/internal"
 	"github.com/echovault/sugardb/internal/config"
+	"github.com/echovault/sugardb/internal/verif"
 	"github.com/hashicorp/raft"
 	"io"
 	"log"
@@ -57,6 +58,8 @@ func (fsm *FSM) Apply(log *raft.Log) interface{} {
 	default:
 		// No-Op
 	case raft.LogCommand:
+		verif.Point("fsm.apply", fsm.options.Config.ServerID, log.Index, log.Data)
+		defer verif.Point("fsm.applied", fsm.options.Config.ServerID, log.Index)
 		var request internal.ApplyRequest
 
 		if err := json.Unmarshal(log.Data, &request); err != nil {
